@@ -22,9 +22,9 @@ def profiles(thorough):
                "connected?", "blockC", "blockedC?", "blockS", "cpC", "delC"]
     flat = Profile(allow_only=sig_ops, nT=0, nG=4, nC=8, specs={"fn": 1}, body_prob=0.0, len=(10, 60),
                    w={"connfn": 12, "emit": 10, "disc": 5, "blockC": 4, "blockG": 2, "clear": 1, "size?": 4})
-    reent = Profile(allow_only=sig_ops, nT=0, nG=3, nC=8, specs={"fn": 1}, body_prob=0.4, len=(10, 60 if not thorough else 200),
+    reent = Profile(allow_only=sig_ops + ["newK"], nT=0, nG=3, nC=8, nK=3, specs={"fn": 8, "ownK": 1}, body_prob=0.4, len=(10, 60 if not thorough else 200),
                     maxdepth=5 if thorough else 4,
-                    w={"connfn": 12, "emit": 10, "disc": 4, "blockC": 3, "size?": 4},
+                    w={"connfn": 12, "emit": 10, "disc": 4, "blockC": 3, "size?": 4, "newK": 2},
                     bw={k: 0 for k in ["delT", "notifyT", "delG", "cpG", "asgG", "masgG", "mvG", "callS", "delS", "discS", "delK", "discK",
                                          "asgS", "mvS", "setS", "mkS", "newT", "relK", "mvK", "newK", "emptyS?", "throw"]})
     return [flat, reent, reent]
